@@ -36,6 +36,7 @@ func Run(c *hx.Ctx) {
 		c09.RunMux(c, "C10", c.N(80, 500))
 		c09.RunH2(c, "C10", c.N(100, 600))
 		c09.RunMxw(c, "C10", c.N(120, 1000))
+		c09.RunBnd(c, "C10", c.N(30, 300))
 		return
 	}
 	// the real pools' side of the ledger (harness/c09): the multiplex pool with one-way requests (requests breaker, host /
@@ -52,4 +53,6 @@ func Run(c *hx.Ctx) {
 	c09.RunH2(c, "C10", c.N(100, 600))
 	// mux6: the multiplex and HTTP/2 pools' ledger per request end cause (harness/c09/mxw.go, kinds mxw / h2w)
 	c09.RunMxw(c, "C10", c.N(120, 1000))
+	// pool9: the binding pool's ledger with a connection closed inside NewStream (harness/c09/bnd.go, kind bnd)
+	c09.RunBnd(c, "C10", c.N(30, 300))
 }
